@@ -56,13 +56,19 @@ def corpus(out, tier, seed, wd, trace=False, extra=None, light=False):
     ncases = nprogs = 0
     parts = []
     with open(cases, "w") as f:
-        def add(cfg, inputs, **kw):
+        def add(cfg, inputs, only=None, **kw):
             nonlocal ncases, nprogs
             pp = os.path.join(wd, cfg + ".ndjson")
             n = progs.generate_programs(out, cfg, pp, **kw)
-            nprogs += n
-            parts.append("%s=%d" % (cfg, n))
+            kept = 0
             for p in vlib.read_ndjson(pp):
+                if only is None or only(p["ast"]):
+                    kept += 1
+            nprogs += kept
+            parts.append("%s=%d" % (cfg, kept) if only is None else "%s=%d of %d" % (cfg, kept, n))
+            for p in vlib.read_ndjson(pp):
+                if only is not None and not only(p["ast"]):
+                    continue
                 src = progs.render(p["toks"])
                 for inp in inputs:
                     c = {"src": src, "ast": p["ast"], "trace": trace}
@@ -78,6 +84,7 @@ def corpus(out, tier, seed, wd, trace=False, extra=None, light=False):
             add("MC_Programs_conds5", [None])
             add("MC_Programs_chains7", [progs.INPUTS[1]])
             add("MC_Programs_seqs4", [progs.INPUTS[1]])
+            add("MC_Programs_paths5", [NESTED], only=lambda a: "app" in a and "acc" in a and ("syma" in a or "symb" in a))      # path accesses
             add("MC_Programs_sim", [progs.INPUTS[3]], simulate=150, depth=14, seed=seed, min_nodes=5, cap=500)
         elif tier == "quick":
             add("MC_Programs_q3", progs.INPUTS)
